@@ -22,7 +22,6 @@ import (
 	"io/fs"
 	"os"
 	"path/filepath"
-	"runtime"
 	"sort"
 	"strings"
 	"sync"
@@ -532,11 +531,9 @@ func (w *watch) watch(fsw *fsnotify.Watcher, m *sync.Mutex, refresh func() error
 		return
 	}
 
-	eventMask := fsnotify.Rename | fsnotify.Remove | fsnotify.Write
-	// On macOS, we also need to watch for Create events.
-	if runtime.GOOS == "darwin" {
-		eventMask |= fsnotify.Create
-	}
+	// Create is needed for files which appear without being written to,
+	// for instance ones moved or linked into a Spec directory.
+	eventMask := fsnotify.Rename | fsnotify.Remove | fsnotify.Write | fsnotify.Create
 
 	for {
 		select {
